@@ -307,3 +307,15 @@ Definition demux_res (m : mux) (f : mframe) : res mux :=
 (* the largest payload fromBytes can hand over: the muxer reads into a 65535-byte buffer and (repaired) fromBytes
    refuses 12 + dataLength > len(b) *)
 Definition max_wire_payload : N := 65523.
+
+(* ------------------------------------------------------------------ the timing the id reuse relies on *)
+(* reapTube keeps the id of a closed, LOCALLY opened reliable tube reserved for 4 * RTT (the opener's estimate)
+   "while the remote peer is waiting in lastAck"; enterLastAckState gives up after 4 * RTT (the acceptor's own
+   estimate).  Durations in nanoseconds.  ta = the moment the acceptor entered lastAck (it sent its FIN), tc = the
+   moment the opener's tube reached closed (it received that FIN, so ta <= tc). *)
+Definition reap_delay (rtt_opener : N) : N := 4 * rtt_opener.
+Definition last_ack_duration (rtt_acceptor : N) : N := 4 * rtt_acceptor.
+Definition predecessor_gone_at_reuse (ta tc rtt_acceptor rtt_opener : N) : Prop :=
+  ta + last_ack_duration rtt_acceptor <= tc + reap_delay rtt_opener.
+Definition mux_initial_rtt : N := 333000000.
+Definition mux_min_rtt : N := 5000000.
